@@ -1,7 +1,7 @@
 LIBS = ["libavoid"]
 HARNESS = "harness/c12.cpp"
 DRIVER_MODE = "c12"
-LEAN_MODULES = ["AdaptaVerif.Props.C12"]
+LEAN_MODULES = ["AdaptaVerif.Props.C12", "AdaptaVerif.Props.C12Ops"]
 LEVEL = "translation_validation"
 LEVEL_TEXT = ("After every processTransaction() of a generated history the real connector/junction "
               "structure of each hyperedge, read through libavoid's public API, is decided by Lean "
